@@ -72,7 +72,7 @@ Fixpoint ladder_fold (sp : ladder) (qs : list (rat K)) (n : nat) : res (option n
       end
   end.
 
-Definition cf_fuel (N D : poly) : nat := (2 * (List.length N + List.length D) + 4)%nat.
+Definition cf_fuel (N D : poly) : nat := (4 * (List.length N + List.length D) + 4)%nat.
 Definition synth_cauer (sp : ladder) (N D : poly) : res (option net) :=
   if pzerob N || pzerob D then Err
   else if l_src_inv sp && (psize N <=? 1)%nat && (psize D <=? 1)%nat then Err
